@@ -40,7 +40,66 @@ type Obl struct {
 	TimeS  float64
 	Model  string
 	File   string
-	part   bool // a conjunct of a split goal (never split again)
+	part   bool     // a conjunct of a split goal (never split again)
+	Block  *ssa.BasicBlock // top-level block the obligation belongs to
+	Cut    *cutRec  // the last cut this obligation lies behind
+	Drops  [][2]int // ranges of context commands whose assertions are forgotten (contract `cut` statements)
+}
+
+// cutRec: a `cut` executed in block; obligations generated afterwards in that block or in blocks it dominates
+// keep the declarations of cmds[from:to] but none of the assertions.
+type cutRec struct {
+	block    *ssa.BasicBlock
+	from, to int
+	soft     bool            // nothing forgotten: only the focused context is tried first
+	facts    map[int]string  // context command -> label of the cut fact it states
+	keep     map[string]bool // labels visible to every obligation in its focused context
+}
+
+type blockMark struct {
+	idx   int
+	block *ssa.BasicBlock
+}
+
+// blockOf: the top-level block during whose execution context command i was emitted (nil: before the body).
+func (vc *VC) blockOf(i int) *ssa.BasicBlock {
+	lo, hi := 0, len(vc.blockMarks)
+	for lo < hi {
+		m := (lo + hi) / 2
+		if vc.blockMarks[m].idx <= i {
+			lo = m + 1
+		} else {
+			hi = m
+		}
+	}
+	if lo == 0 {
+		return nil
+	}
+	return vc.blockMarks[lo-1].block
+}
+
+// hidden: command i does not belong to the context of obligation o: it is forgotten by a cut, or it was emitted for
+// a block from which the obligation's block cannot be reached (its guard is false on every path to the obligation).
+func (vc *VC) hidden(o *Obl, i int, cmd string) bool {
+	if o.dropped(i, cmd) {
+		return true
+	}
+	if o.Block != nil && vc.cfReach != nil && strings.HasPrefix(cmd, "(assert") {
+		if x := vc.blockOf(i); x != nil && x != o.Block && !vc.cfReach[x.Index][o.Block.Index] {
+			return true
+		}
+	}
+	return false
+}
+
+// dropped reports whether context command i is forgotten for obligation o.
+func (o *Obl) dropped(i int, cmd string) bool {
+	for _, d := range o.Drops {
+		if i >= d[0] && i < d[1] {
+			return strings.HasPrefix(cmd, "(assert")
+		}
+	}
+	return false
 }
 
 type VC struct {
@@ -64,6 +123,12 @@ type VC struct {
 	usedTrusted    map[string]bool
 	inlined        map[string]bool
 	callCount      map[string]int
+	blockMarks     []blockMark          // where the context commands of each top-level block start
+	cfReach        map[int]map[int]bool // acyclic reachability between the top-level function's blocks
+	cuts           []*cutRec
+	reqStart       int // context length before the requires clauses
+	curBlock       *ssa.BasicBlock   // block of the top-level frame being executed
+	entryLen       int               // context length after the requires clauses
 	localKinds     map[string]string // layout kind of local-variable state leaves
 	extraDecls     []string
 	valueSolver    string
@@ -154,7 +219,16 @@ func (vc *VC) oblige(kind, label string, reach, goal *Term, pos token.Pos, src s
 	if pos.IsValid() {
 		line = vc.e.Fset.Position(pos).Line
 	}
-	o := &Obl{Name: name, Kind: kind, Label: label, Goal: g, CtxLen: len(vc.cmds), Func: vc.short, Line: line, Src: src, Props: props, Callee: callee}
+	o := &Obl{Name: name, Kind: kind, Label: label, Goal: g, CtxLen: len(vc.cmds), Func: vc.short, Line: line, Src: src, Props: props, Callee: callee, Block: vc.curBlock}
+	for _, c := range vc.cuts {
+		c := c
+		if vc.curBlock != nil && (c.block == vc.curBlock || c.block.Dominates(vc.curBlock)) {
+			if !c.soft {
+				o.Drops = append(o.Drops, [2]int{c.from, c.to})
+			}
+			o.Cut = c
+		}
+	}
 	if g.String() == "true" {
 		o.Status = "unsat"
 		o.Solver = "trivial"
@@ -374,9 +448,15 @@ func (vc *VC) script(o *Obl, withModel bool) string {
 	}
 	sb.WriteString("(set-option :produce-models true)\n(set-logic ALL)\n")
 	sb.WriteString(vc.preambleFor(vc.usesMS(o.CtxLen, o.Goal)))
-	for _, c := range vc.cmds[:o.CtxLen] {
+	for i, c := range vc.cmds[:o.CtxLen] {
+		if vc.hidden(o, i, c) {
+			continue
+		}
 		sb.WriteString(c)
 		sb.WriteByte('\n')
+	}
+	if o.part {
+		sb.WriteString("(declare-fun keep!terms (Bool) Bool)\n(assert (keep!terms true))\n(assert (keep!terms false))\n")
 	}
 	sb.WriteString("(assert (not " + o.Goal.String() + "))\n(check-sat)\n")
 	if withModel {
@@ -475,10 +555,13 @@ func (vc *VC) slicedScript(o *Obl) string {
 	sb.WriteString("; obligation " + o.Name + " (sliced)\n(set-logic ALL)\n")
 	sb.WriteString(vc.preambleFor(vc.usesMS(o.CtxLen, o.Goal)))
 	for i, c := range cmds {
-		if keep[i] {
+		if keep[i] && !vc.hidden(o, i, c) {
 			sb.WriteString(c)
 			sb.WriteByte('\n')
 		}
+	}
+	if o.part {
+		sb.WriteString("(declare-fun keep!terms (Bool) Bool)\n(assert (keep!terms true))\n(assert (keep!terms false))\n")
 	}
 	sb.WriteString("(assert (not " + o.Goal.String() + "))\n(check-sat)\n")
 	return sb.String()
@@ -559,5 +642,38 @@ func (e *Engine) preamble(withMS bool) string {
 			sb.WriteString(e.floatSorts(d.Text) + "\n")
 		}
 	}
+	return sb.String()
+}
+
+// focusedScript: for an obligation behind a `cut`: the quantifier-free context, the quantified facts stated after
+// the cut, and of the cut's facts only the ones marked keep(...) plus the one carrying the obligation's own label
+// (cut.<label> or cut<ordinal>). Quantified requires are left out (the cut restates what is needed of them).
+func (vc *VC) focusedScript(o *Obl) string {
+	var sb strings.Builder
+	sb.WriteString("; obligation " + o.Name + " (focused context after cut)\n(set-logic ALL)\n")
+	sb.WriteString(vc.preambleFor(vc.usesMS(o.CtxLen, o.Goal)))
+	for i, c := range vc.cmds[:o.CtxLen] {
+		if vc.hidden(o, i, c) {
+			continue
+		}
+		q := strings.Contains(c, "(forall ")
+		if q && i >= vc.reqStart && i < vc.entryLen && !strings.HasSuffix(c, ";E") {
+			continue
+		}
+		if q && i >= o.Cut.from && i < o.Cut.to {
+			continue
+		}
+		if l, ok := o.Cut.facts[i]; ok && q {
+			if !(o.Cut.keep[l] || l == "cut."+o.Label || l == "cut"+o.Label) {
+				continue
+			}
+		}
+		sb.WriteString(c)
+		sb.WriteByte('\n')
+	}
+	if o.part {
+		sb.WriteString("(declare-fun keep!terms (Bool) Bool)\n(assert (keep!terms true))\n(assert (keep!terms false))\n")
+	}
+	sb.WriteString("(assert (not " + o.Goal.String() + "))\n(check-sat)\n")
 	return sb.String()
 }
